@@ -376,6 +376,10 @@ def shrink_scenario(pid, cfg, binp, scen_ops, workdir, known, nouf_bin=None, bud
             o.pop("hex", None)
     if not fails(cur):
         return None
+    if any(o.get("op", "").startswith("assert_") for o in cur):
+        # a relational scenario compares twin parsers: dropping a call from one twin changes what the assertion MEANS (the
+        # shrunk scenario could "fail" for a reason the property does not forbid), so it is kept whole
+        return cur
     tries = 0
     changed = True
     while changed and tries < budget:
